@@ -111,7 +111,7 @@ Theorem circuit_methods_okb_sound : forall ms, circuit_methods_okb ms = true -> 
 Proof.
   intros ms H. unfold circuit_methods_okb in H. apply andb_true_iff in H. destruct H as [HM HE]. split.
   - intros m Hm Hc. rewrite forallb_forall in HM. specialize (HM m Hm). unfold method_okb in HM. rewrite Hc in HM.
-    cbv zeta in HM. apply andb_true_iff in HM. destruct HM as [H1 H23]. split; [|split].
+    cbv zeta in HM. apply andb_true_iff in HM. destruct HM as [H1 H23]. split; [|split; [|split]].
     + intros [w [Hw Hs]]. apply orb_true_iff in H1. destruct H1 as [H1 | H1].
       * exfalso. apply negb_true_iff in H1.
         assert (Ht : existsb (fun w => mem (fst w) structural_fields) (m_writes m) = true).
@@ -128,6 +128,13 @@ Proof.
         destruct (mem (m_name m) entry_methods) eqn:Ee; [left; apply mem_In; exact Ee|].
         destruct (mem (m_name m) expansion_methods) eqn:Ex; [right; apply mem_In; exact Ex|].
         destruct (m_writes m); [contradiction | discriminate H3].
+    + intros He Hns w Hw Hpw. destruct (lookup_guarded (m_name m)) as [g|] eqn:El.
+      * exfalso. apply Hns. apply lookup_guarded_Some in El. apply in_map_iff. exists (m_name m, g). split; [reflexivity | exact El].
+      * apply andb_true_iff in H23. destruct H23 as [_ H3]. apply mem_In in He. rewrite He in H3.
+        apply andb_true_iff in H3. destruct H3 as [_ HG]. unfold guard_before_pass in HG. rewrite forallb_forall in HG.
+        specialize (HG w Hw). rewrite Hpw in HG. cbn [negb orb] in HG. apply existsb_exists in HG.
+        destruct HG as [g [Hg Hb]]. apply andb_true_iff in Hb. destruct Hb as [Hn Hl].
+        exists g. split; [exact Hg|]. split; [apply String.eqb_eq; exact Hn | apply Nat.ltb_lt; exact Hl].
   - intros p Hp. rewrite forallb_forall in HE. specialize (HE p Hp). apply existsb_exists in HE.
     destruct HE as [m [Hm Hb]]. apply andb_true_iff in Hb. destruct Hb as [Hb Hc]. apply andb_true_iff in Hb.
     destruct Hb as [Hn Hpub]. exists m. split; [exact Hm|]. split; [apply String.eqb_eq; exact Hn|].
@@ -156,6 +163,9 @@ Example methods_rule_discriminates :
   circuit_methods_okb (mkM "setCellX" true false 0 [("cellX_", 20); ("cellIsFixed_", 21)] [] :: ex_methods) = false /\
   (* an entry point writing something else than the in-use flag *)
   circuit_methods_okb (mkM "legalize" true false 0 [("cellX_", 20)] [] :: ex_methods) = false /\
+  (* an entry point that hands the circuit on BEFORE taking the in-use flag *)
+  circuit_methods_okb (mkM "placeDetailed" true false 0 [("@pass:DetailedPlacer::legalize", 10); ("isInUse_", 12); ("@pass:DetailedPlacer::place", 13)] [] :: ex_methods) = false /\
+  circuit_methods_okb (mkM "placeDetailed" true false 0 [("isInUse_", 12); ("@pass:DetailedPlacer::place", 13)] [] :: ex_methods) = true /\
   (* a const member function is not constrained (const-correctness is trusted) *)
   circuit_methods_okb (mkM "hpwl" true true 0 [] [] :: ex_methods) = true.
 Proof. vm_compute. repeat split. Qed.
